@@ -1501,7 +1501,7 @@ def gen_c15(rng, n, exhaustive=False):
             elif op in ("cov", "corr"):
                 # also windows in which an operand is constant (zero standard deviation) or that contain no step
                 # point at all: whether the sides clash does not depend on the window
-                win = rng.choice(["0 10", "0 10", "20 30", "-10 -1", "none none", "3 4"])
+                win = rng.choice(["0 10", "0 10", "20 30", "-10 -1", "none none", "3 4", "5 3", "4 4"])   # last two: degenerate
                 b.add(f"{op} {A} {B} {win} 0 pre ;; errorsonly=1", focus=True)
                 b.tags.update(op=op, ca=ca, cb=cb, sa=sa, sb=sb)
                 progs.append(b.program())
